@@ -5,7 +5,7 @@ use crate::ast::*;
 fn term_ok(t: &T, scope: &[VarIx]) -> bool {
     match t {
         T::V(v) => scope.contains(v),
-        T::Cons(h, tl) => term_ok(h, scope) && term_ok(tl, scope),
+        T::Cons(h, tl) | T::Cmp(_, h, tl) => term_ok(h, scope) && term_ok(tl, scope),
         T::Any(_) => false,
         _ => true,
     }
